@@ -136,8 +136,13 @@ func lruProperty(regimes []string) func(t *rapid.T) {
 		if capEff <= 0 {
 			t.Fatalf("Capacity() = %d for requested %d: no positive default in force", capEff, capIn)
 		}
-		if capIn <= 0 && capEff != 100 {
-			t.Fatalf("Capacity() = %d for requested %d: non-positive capacities are replaced by the documented default of 100", capEff, capIn)
+		// the statement does not fix the default's value (100 today), only that there is ONE default that
+		// replaces every non-positive request (a hard-coded 100 here was a false alarm against a tree whose
+		// default had been raised; DESIGN section 10)
+		if capIn <= 0 {
+			if d0, d1 := cache.NewLRUCache(0, ttl).Capacity(), cache.NewLRUCache(-1, ttl).Capacity(); capEff != d0 || capEff != d1 {
+				t.Fatalf("Capacity() = %d for requested %d, %d for requested 0, %d for requested -1: non-positive capacities are replaced by one default", capEff, capIn, d0, d1)
+			}
 		}
 		if capIn > 0 && capEff != capIn {
 			t.Fatalf("Capacity() = %d, requested %d", capEff, capIn)
